@@ -148,7 +148,7 @@ def enum_cases(chunk):
                     yield {"x": x, "t0": 0, "D": D, "suspect": s, "fail": f, "tol": tol, "tc": "dt64"}
 
 
-SUBS = [Sub("flat_line", lambda tier: gen.with_carrier(flat_case(tier)), check_flat, quick=5000, thorough=100000)]
+SUBS = [Sub("flat_line", lambda tier: gen.with_carrier(flat_case(tier)), check_flat, quick=8000, thorough=100000)]
 ENUMS = [Enum("flat_alphabet", enum_chunks, enum_cases, check_flat,
               describe="all series of length 1..7 (quick: 1..4) over {0,0.5,1,missing} x D in {1,60} x durations "
                        "{0,D,2D,3D(+1),nD}^2 x tolerances {0,0.5,1,1.5}", tiers=("quick", "thorough"))]
